@@ -174,6 +174,7 @@ fn plan(prop: &str, o: &mut Out) {
             g_long_valid(o, &all);
             g_swallow_invalid(o, &all);
             g_swallow_long(o, &all);
+            g_nonascii_chars(o, &["b32", "dyn", "big"]);
             // invalid texts through both entry points: they must agree on rejection too
             g_targeted_invalid(o);
         }
@@ -221,6 +222,8 @@ fn plan(prop: &str, o: &mut Out) {
             g_long_valid(o, &["b32", "b64", "b128", "dyn"]);
             g_huge_digits(o, &["b32", "b64", "b128", "dyn"]);
             g_swallow_invalid(o, &all);
+            // non-ASCII characters through write_char: the byte named is the first byte of their UTF-8 form
+            g_nonascii_chars(o, &["b32", "dyn", "big"]);
             g_specials(o);
             g_bytes(o);
             g_conv_errors(o);
